@@ -468,9 +468,26 @@ impl <'a>SearchEnv<'a> {
             return;
         }
 
-        if (self.max_time != -1 && self.start_time.elapsed().unwrap().as_millis() as i64 >= self.max_time) || self.io_receiver.try_read_line().is_some() {
+        //Once stopping, leave the remaining input to the main loop
+        if self.stopping { return; }
+
+        if self.max_time != -1 && self.start_time.elapsed().unwrap().as_millis() as i64 >= self.max_time {
             self.stopping = true;
             return;
+        }
+
+        if let Some(line) = self.io_receiver.try_read_line() {
+            match line.as_str() {
+                //Answered without disturbing the search
+                "isready" => print!("readyok\n"),
+                "" => {},
+                "stop" => self.stopping = true,
+                //Anything else (quit, position, go, ...) ends the search and is then handled by the main loop
+                _ => {
+                    self.io_receiver.unread_line(line);
+                    self.stopping = true;
+                }
+            }
         }
     }
 }
